@@ -227,6 +227,46 @@ theorem listen_address_dotted_blocked (servers : List Server) (s : Server) (a b 
         ((a * 256 + b) * 256 + c) * 256 + d := by omega
     simp [sameHost, normHost_mapped a b c d h0 hb hc hd, hp6, hp4, effective, h1, h2]
 
+/-- **`localhost` in any ASCII case, with or without one trailing dot** — the hypothesis of
+    `localhost_any_spelling` derived: every text whose ASCII lower-casing is `localhost` or `localhost.`
+    is refused on the port of any listener of a matching transport -/
+theorem localhost_case_and_dot_blocked (servers : List Server) (s : Server) (lh dh : Text) (dp : Nat)
+    (tp : Transport) (hs : s ∈ servers) (ha : (lh, dp) ∈ s.addrs)
+    (ht : transportMatches s.transport tp = true)
+    (hd : dh.map asciiLowerB = localhost ∨ dh.map asciiLowerB = localhost ++ [0x2e]) :
+    selfConnect servers dh dp tp = true := by
+  apply localhost_any_spelling servers s lh dh dp tp hs ha ht
+  rcases hd with h | h
+  · simp only [normHost, h]; decide
+  · simp only [normHost, h]; decide
+
+-- "LocalHost." : its lower-casing is "localhost."
+example : ([0x4c,0x6f,0x63,0x61,0x6c,0x48,0x6f,0x73,0x74,0x2e] : Text).map asciiLowerB = localhost ++ [0x2e] := by decide
+
+/-- **the wildcard address itself**, in its three text forms `0.0.0.0`, `::`, `::ffff:0.0.0.0`, is refused
+    on the port of any listener of a matching transport (the hypotheses of `wildcard_blocked` computed) -/
+theorem wildcard_texts_blocked (servers : List Server) (s : Server) (lh : Text) (dp : Nat)
+    (tp : Transport) (hs : s ∈ servers) (ha : (lh, dp) ∈ s.addrs)
+    (ht : transportMatches s.transport tp = true) :
+    selfConnect servers (dotted 0 0 0 0) dp tp = true ∧
+    selfConnect servers [0x3a, 0x3a] dp tp = true ∧
+    selfConnect servers (mappedText 0 0 0 0) dp tp = true := by
+  refine ⟨?_, ?_, ?_⟩
+  · exact wildcard_blocked servers s lh _ dp tp (Addr.v4 0) hs ha ht (by decide +kernel) (by decide)
+  · exact wildcard_blocked servers s lh _ dp tp (Addr.v6 0 none) hs ha ht (by decide +kernel) (by decide)
+  · exact wildcard_blocked servers s lh _ dp tp (Addr.v6 (0xFFFF * 4294967296) none) hs ha ht
+      (by decide +kernel) (by decide)
+
+/-- `::1` (also written out in full) is refused on the port of any listener of a matching transport -/
+theorem ipv6_loopback_texts_blocked (servers : List Server) (s : Server) (lh : Text) (dp : Nat)
+    (tp : Transport) (hs : s ∈ servers) (ha : (lh, dp) ∈ s.addrs)
+    (ht : transportMatches s.transport tp = true) :
+    selfConnect servers [0x3a, 0x3a, 0x31] dp tp = true ∧
+    selfConnect servers [0x30,0x3a,0x30,0x3a,0x30,0x3a,0x30,0x3a,0x30,0x3a,0x30,0x3a,0x30,0x3a,0x31] dp tp = true := by
+  refine ⟨?_, ?_⟩
+  · exact loopback_addresses_blocked servers s lh _ dp tp (Addr.v6 1 none) hs ha ht (by decide +kernel) (by decide)
+  · exact loopback_addresses_blocked servers s lh _ dp tp (Addr.v6 1 none) hs ha ht (by decide +kernel) (by decide)
+
 /-! ### histories of runtime reconfiguration -/
 
 /-- **C23 over histories.** For every initial listener state and every history of runtime
